@@ -144,6 +144,36 @@ theorem binop_res (op : Src.BinOp) (t : STy) (x y : List Bool) (va vb : Val) (tr
     | stuck w => exact (hns.1 w hop).elim
     | fuel => exact (hns.2 hop).elim
 
+/-- the operator step of a shift whose operands evaluated without a panic -/
+theorem shift_res_rel (left : Bool) (k : IntTy) (x y : List Bool) (va vb : Val) (env2 : Src.Env) (benv2 : BEnv)
+    (hra : Rel (.int k) va x) (hrb : Rel (.int .u8) vb y) (henv2 : EnvRel env2 benv2) :
+    ResRel (match Src.binop (if left then .shl else .shr) (STy.int k).toTy va vb with
+      | .ok rv => .ok (rv, env2)
+      | .error e => .error e) (.s (.int k))
+      (Arith.binop (if left then .shl else .shr) k.signed false k.signed x y).1
+      (seqP none (seqP none (firstOf (Arith.binop (if left then .shl else .shr) k.signed false k.signed x y).2)))
+      benv2 := by
+  obtain ⟨a, rfl, ha, rfl⟩ := hra.int_inv
+  obtain ⟨s, rfl, hs, rfl⟩ := hrb.int_inv
+  cases left
+  · have h := binop_shr k a s ha hs
+    simp only at h
+    simp only [Bool.false_eq_true, if_false, Src.binop, STy.toTy]
+    by_cases hc : s < 0 ∨ s ≥ k.bits
+    · simp [hc, ResRel, seqP, h.1 hc]
+    · obtain ⟨h0, h1, h2⟩ := h.2 hc
+      simp only [hc, if_false, ResRel, VRel, Rel, seqP]
+      exact ⟨h2, ⟨h0, h1⟩, henv2⟩
+  · have h := binop_shl k a s ha hs
+    simp only at h
+    simp only [if_true, Src.binop, STy.toTy]
+    by_cases hc : s < 0 ∨ s ≥ k.bits
+    · simp [hc, ResRel, seqP, h.1 hc]
+    · obtain ⟨h1, h2⟩ := h.2 hc
+      simp only [hc, if_false, ResRel, VRel, Rel, seqP]
+      refine ⟨h2, ⟨?_, h1⟩, henv2⟩
+      rw [inRange_iff]; exact Src.wrapTo_range k _
+
 theorem exprOK_succ (prog : Prog) (fuel : Nat) (ihE : ExprOK prog fuel) (ihS : StmtsOK prog fuel) :
     ExprOK prog (fuel + 1) := by
   intro e env benv t bs p benv' henv hb
@@ -394,8 +424,86 @@ theorem exprOK_succ (prog : Prog) (fuel : Nat) (ihE : ExprOK prog fuel) (ihS : S
                 exact ⟨rfl, hrb, EnvRel.mux false hshape henv2⟩
         · simp at hb
       · simp at hb
+    case shl =>
+      simp only [bitExpr] at hb
+      split at hb
+      · rename_i k hty
+        split at hb
+        · rename_i k' x p1 env1 ha
+          split at hb
+          · rename_i y p2 env2 hbb
+            split at hb
+            · rename_i hk
+              subst hk
+              simp only [Option.some.injEq, Prod.mk.injEq] at hb
+              obtain ⟨rfl, rfl, rfl, rfl⟩ := hb
+              have iha := ihE a env benv _ _ _ _ henv ha
+              have hty' := ofTy_some hty
+              subst hty'
+              rw [evalExpr_bin _ _ _ _ _ _ _ (by decide) (by decide)]
+              cases hev : evalExpr fuel prog env a with
+              | error er => rw [hev] at iha; exact iha.error_of (fun p => seqP p _) (fun _ => rfl)
+              | ok res =>
+                obtain ⟨va, enva⟩ := res
+                rw [hev] at iha
+                obtain ⟨rfl, hra, henv1⟩ := iha
+                have ihb := ihE b enva env1 _ _ _ _ henv1 hbb
+                dsimp only
+                cases hevb : evalExpr fuel prog enva b with
+                | error er =>
+                  rw [hevb] at ihb
+                  exact ihb.error_of (fun p => seqP none (seqP p _)) (fun _ => rfl)
+                | ok resb =>
+                  obtain ⟨vb, envb⟩ := resb
+                  rw [hevb] at ihb
+                  obtain ⟨rfl, hrb, henv2⟩ := ihb
+                  exact shift_res_rel true k' x y va vb envb env2 hra hrb henv2
+            · simp at hb
+          · simp at hb
+        · simp at hb
+      · simp at hb
+    case shr =>
+      simp only [bitExpr] at hb
+      split at hb
+      · rename_i k hty
+        split at hb
+        · rename_i k' x p1 env1 ha
+          split at hb
+          · rename_i y p2 env2 hbb
+            split at hb
+            · rename_i hk
+              subst hk
+              simp only [Option.some.injEq, Prod.mk.injEq] at hb
+              obtain ⟨rfl, rfl, rfl, rfl⟩ := hb
+              have iha := ihE a env benv _ _ _ _ henv ha
+              have hty' := ofTy_some hty
+              subst hty'
+              rw [evalExpr_bin _ _ _ _ _ _ _ (by decide) (by decide)]
+              cases hev : evalExpr fuel prog env a with
+              | error er => rw [hev] at iha; exact iha.error_of (fun p => seqP p _) (fun _ => rfl)
+              | ok res =>
+                obtain ⟨va, enva⟩ := res
+                rw [hev] at iha
+                obtain ⟨rfl, hra, henv1⟩ := iha
+                have ihb := ihE b enva env1 _ _ _ _ henv1 hbb
+                dsimp only
+                cases hevb : evalExpr fuel prog enva b with
+                | error er =>
+                  rw [hevb] at ihb
+                  exact ihb.error_of (fun p => seqP none (seqP p _)) (fun _ => rfl)
+                | ok resb =>
+                  obtain ⟨vb, envb⟩ := resb
+                  rw [hevb] at ihb
+                  obtain ⟨rfl, hrb, henv2⟩ := ihb
+                  exact shift_res_rel false k' x y va vb envb env2 hra hrb henv2
+            · simp at hb
+          · simp at hb
+        · simp at hb
+      · simp at hb
     all_goals
       simp only [bitExpr] at hb
+      split at hb
+      · simp at hb
       split at hb
       · simp at hb
       · rename_i t' hty
